@@ -269,6 +269,9 @@ def run_one(seed, tape, opts):
     sim = w.sim
     if not half and tape.choose(2, "greeter") == 0:
         cc.install_greeter(w, tape)
+        # ... some of them throttle from inside dataReceived (more DATA and
+        # the peer's CLOSE may sit in the same read)
+        w.reactive_pause = pausing
     sim.allow_advance = False     # nothing here depends on deadlines
     faults = cc.L2Faults(w, tape, tape.choose(5 if staged else 3, "fb"))
     if pausing:
